@@ -289,7 +289,9 @@ class BaseReader:
                                 dtype=self.dtype, shape=_out_shape)
 
             default_chunks = (-1,) + ("auto",) * len(self.sample_shape)
-            z = z.rechunk(kwargs.get("chunks", default_chunks))
+            if n > 0:
+                # Dask cannot pick an automatic chunk size for an empty array
+                z = z.rechunk(kwargs.get("chunks", default_chunks))
         else:
             z = self._read_array(offset, n, **kwargs)
 
